@@ -609,6 +609,9 @@ func (in *Interp) errUnwrap(fr *frame, err Iface) Iface {
 }
 
 func (in *Interp) errorsIs(fr *frame, err, target Iface) bool {
+	if err.T == nil || target.T == nil {
+		return err.T == nil && target.T == nil
+	}
 	for err.T != nil {
 		if target.T != nil && types.Identical(err.T, target.T) && types.Comparable(err.T) {
 			eq := in.equals(err.T, err.V, target.V)
@@ -619,9 +622,22 @@ func (in *Interp) errorsIs(fr *frame, err, target Iface) bool {
 				return true
 			}
 		}
+		// an Is(error) bool method of the error in the chain decides as well
+		if sel := in.prog.MethodSets.MethodSet(err.T).Lookup(nil, "Is"); sel != nil {
+			if f := in.prog.MethodValue(sel); f != nil && f.Signature.Params().Len() == 1 && f.Signature.Results().Len() == 1 {
+				if r, ok := in.call(fr, f, []Value{err.V, target}).(Bool); ok {
+					if r.T != nil {
+						panic(inconclusive{"errors.Is: symbolic result of an Is method"})
+					}
+					if r.C {
+						return true
+					}
+				}
+			}
+		}
 		err = in.errUnwrap(fr, err)
 	}
-	return target.T == nil && err.T == nil
+	return false
 }
 
 // ---- ideal AEAD ----
@@ -830,11 +846,74 @@ func ptrID(in *Interp, p *Value) int {
 
 type ptrTag int
 
+// hostFmtArgs converts fmt operands to host values when every one of them is a concrete value of a basic type.
+func hostFmtArgs(args []Value) ([]interface{}, bool) {
+	out := make([]interface{}, 0, len(args))
+	for _, a := range args {
+		it, ok := a.(Iface)
+		if !ok || it.T == nil {
+			return nil, false
+		}
+		b, ok := it.T.(*types.Basic) // named types may carry String/Error/Format methods: not here
+		if !ok {
+			return nil, false
+		}
+		switch v := it.V.(type) {
+		case Str:
+			if !v.IsConc() || b.Kind() != types.String {
+				return nil, false
+			}
+			out = append(out, v.S)
+		case Bool:
+			if v.T != nil {
+				return nil, false
+			}
+			out = append(out, v.C)
+		case BV:
+			if v.T != nil {
+				return nil, false
+			}
+			switch b.Kind() {
+			case types.Int:
+				out = append(out, int(v.Signed()))
+			case types.Int8:
+				out = append(out, int8(v.Signed()))
+			case types.Int16:
+				out = append(out, int16(v.Signed()))
+			case types.Int32:
+				out = append(out, int32(v.Signed()))
+			case types.Int64:
+				out = append(out, v.Signed())
+			case types.Uint:
+				out = append(out, uint(v.C))
+			case types.Uint8:
+				out = append(out, uint8(v.C))
+			case types.Uint16:
+				out = append(out, uint16(v.C))
+			case types.Uint32:
+				out = append(out, uint32(v.C))
+			case types.Uint64:
+				out = append(out, v.C)
+			default:
+				return nil, false
+			}
+		default:
+			return nil, false
+		}
+	}
+	return out, true
+}
+
 func (in *Interp) sprintf(fr *frame, format Str, args []Value) Str {
 	if !format.IsConc() {
 		panic(inconclusive{"Sprintf with a symbolic format"})
 	}
 	f := format.S
+	// concrete format and concrete basic-typed operands: the host's fmt decides (flags, widths, bad verbs, missing and
+	// extra operands exactly as the real program prints them)
+	if host, ok := hostFmtArgs(args); ok {
+		return Str{S: fmt.Sprintf(f, host...)}
+	}
 	out := Str{}
 	ai := 0
 	for i := 0; i < len(f); i++ {
